@@ -2,5 +2,5 @@ INIT Init
 NEXT Next
 CONSTANTS
   Depth = 3
-  Shapes = {0, 1, 2, 3, 4, 5, 6}
+  Shapes = {0, 1, 2, 4, 5, 6}
 INVARIANTS DesignOK EmitVec
